@@ -2,6 +2,8 @@ package props
 
 import (
 	"strings"
+	"sync"
+	"time"
 	"bytes"
 	"encoding/base64"
 	"encoding/binary"
@@ -355,4 +357,145 @@ func TestC14_FN(t *testing.T) {
 		}
 		return nt || len(auths) > 0, cl
 	}, runC14)
+}
+
+// ---- C14_CONC: authenticate messages of one session (one challenge) that are processed at the same time ----
+
+type c14ConcMsg struct {
+	Claimed string `json:"claimed_user"`
+	KeyUser string `json:"key_user"`
+	KeyPass string `json:"key_password"`
+	PadKiB  int    `json:"trailing_kib,omitempty"` // ignored bytes behind the message: decoding takes that much longer
+	DelayUs int    `json:"delay_us"`
+}
+
+type c14ConcCase struct {
+	DB     []c14User    `json:"users"`
+	Msgs   []c14ConcMsg `json:"messages"`
+	Rounds int          `json:"rounds"`
+}
+
+func genC14Conc(t *rapid.T) c14ConcCase {
+	names := []string{"alice", "bob", "mallory", "carol"}
+	c := c14ConcCase{Rounds: rapid.IntRange(4, 24).Draw(t, "rounds")}
+	n := rapid.IntRange(2, 4).Draw(t, "users")
+	for i := 0; i < n; i++ {
+		c.DB = append(c.DB, c14User{Name: names[i], Password: "password of " + names[i]})
+	}
+	k := rapid.IntRange(2, 4).Draw(t, "msgs")
+	for i := 0; i < k; i++ {
+		m := c14ConcMsg{Claimed: c.DB[rapid.IntRange(0, n-1).Draw(t, "claimed")].Name}
+		ku := c.DB[rapid.IntRange(0, n-1).Draw(t, "keyUser")]
+		if rapid.IntRange(0, 2).Draw(t, "honest") == 0 {
+			ku = c14User{Name: m.Claimed, Password: "password of " + m.Claimed}
+		}
+		m.KeyUser, m.KeyPass = ku.Name, ku.Password
+		m.PadKiB = rapid.SampledFrom([]int{0, 0, 64, 1024, 2500}).Draw(t, "pad")
+		m.DelayUs = rapid.SampledFrom([]int{0, 0, 50, 100, 200, 400, 800}).Draw(t, "delay")
+		c.Msgs = append(c.Msgs, m)
+	}
+	return c
+}
+
+func runC14Conc(c c14ConcCase) *Violation {
+	var users []authconfig.UserConfig
+	db := map[string]string{}
+	for _, u := range c.DB {
+		users = append(users, authconfig.UserConfig{Username: u.Name, Password: u.Password})
+		db[u.Name] = u.Password
+	}
+	svc := ntlm.NewNTLMAuth(database.NewConfig(users))
+	pads := map[int][]byte{}
+	for round := 0; round < c.Rounds; round++ {
+		session := fmt.Sprintf("203.0.113.7:%d", 50000+round)
+		r, err := svc.Authenticate(&auth.NtlmRequest{Session: session, NtlmMessage: base64.StdEncoding.EncodeToString(ntlmx.Negotiate())})
+		if err != nil || r.NtlmMessage == "" {
+			return viol("c14/negotiate-not-answered", "round %d: no challenge: %v %+v", round, err, r)
+		}
+		raw, _ := base64.StdEncoding.DecodeString(r.NtlmMessage)
+		ch, perr := ntlmx.ParseChallenge(raw)
+		if perr != nil {
+			return viol("c14/bad-challenge", "round %d: %v", round, perr)
+		}
+		type res struct {
+			r   *auth.NtlmResponse
+			err error
+			pan any
+		}
+		out := make([]res, len(c.Msgs))
+		texts := make([]string, len(c.Msgs))
+		justified := make([]bool, len(c.Msgs))
+		for i, m := range c.Msgs {
+			cc := make([]byte, 8)
+			binary.LittleEndian.PutUint64(cc, uint64(round*16+i+1))
+			msg, blob, proof := ntlmx.Authenticate(ntlmx.AuthSpec{User: m.Claimed, Workstation: "WS", Key: ntlmx.NTOWFv2(m.KeyPass, m.KeyUser, ""),
+				ServerChallenge: ch.ServerChallenge, TargetInfo: ch.TargetInfo, Timestamp: []byte{0, 0x80, 0x3e, 0xd5, 0xde, 0xb1, 0x9d, 0x01}, ClientChallenge: cc})
+			if pads[m.PadKiB] == nil {
+				pads[m.PadKiB] = make([]byte, m.PadKiB*1024)
+			}
+			texts[i] = base64.StdEncoding.EncodeToString(append(msg, pads[m.PadKiB]...))
+			justified[i] = bytes.Equal(ntlmx.Proof(ntlmx.NTOWFv2(db[m.Claimed], m.Claimed, ""), ch.ServerChallenge, blob), proof)
+		}
+		var wg sync.WaitGroup
+		start := make(chan struct{})
+		for i := range c.Msgs {
+			wg.Add(1)
+			go func(i int) {
+				defer wg.Done()
+				defer func() {
+					if p := recover(); p != nil {
+						out[i].pan = p
+					}
+				}()
+				<-start
+				// the offsets move with the round, so that different overlaps are met
+				time.Sleep(time.Duration(c.Msgs[i].DelayUs+37*(round%8)) * time.Microsecond)
+				out[i].r, out[i].err = svc.Authenticate(&auth.NtlmRequest{Session: session, NtlmMessage: texts[i]})
+			}(i)
+		}
+		close(start)
+		wg.Wait()
+		for i, m := range c.Msgs {
+			if out[i].pan != nil {
+				return viol("c14/panic", "the verifier panicked: %v", out[i].pan)
+			}
+			if r := out[i].r; r != nil && r.Authenticated {
+				desc := fmt.Sprintf("round %d, message %d of %d sent together in one session: names %q, proof computed with the password of %q; answers: %s", round, i, len(c.Msgs), m.Claimed, m.KeyUser, func() string {
+					var s []string
+					for j := range out {
+						s = append(s, fmt.Sprintf("[%d names %q key of %q -> %v %q]", j, c.Msgs[j].Claimed, c.Msgs[j].KeyUser, out[j].r != nil && out[j].r.Authenticated, usernameOf(out[j].r)))
+					}
+					return strings.Join(s, " ")
+				}())
+				if !justified[i] {
+					return viol("c14/authenticated-without-proof/concurrent", "reported as authenticated although the message does not prove the configured password of the named user: %s", desc)
+				}
+				if r.Username != m.Claimed {
+					return viol("c14/wrong-username", "authenticated, but as another user than the one named: %s", desc)
+				}
+			}
+		}
+	}
+	return nil
+}
+
+func TestC14_CONC(t *testing.T) {
+	runProp(t, "C14_CONC", genC14Conc, func(c c14ConcCase) (bool, []string) {
+		var cl []string
+		forged, honest := false, false
+		for _, m := range c.Msgs {
+			if m.KeyUser != m.Claimed {
+				forged = true
+			} else {
+				honest = true
+			}
+			if m.PadKiB >= 1024 {
+				cl = append(cl, "slow-to-decode")
+			}
+		}
+		if forged && honest {
+			cl = append(cl, "forged-beside-honest")
+		}
+		return forged, cl
+	}, runC14Conc)
 }
